@@ -12,7 +12,7 @@ from props import c11 as base
 from props.c11 import model_result, impl_view, norm, buflen, READ_KINDS  # noqa: F401
 
 ID = "C13"
-LEAN_TARGETS = ["TornadoModel.C13.Props"]
+LEAN_TARGETS = ["TornadoModel.C13.Props", "TornadoModel.C13.CloseStep", "TornadoModel.C13.Reach"]
 _P = "TornadoModel.C13."
 THEOREMS = [_P + n for n in [
     "close_settles_all", "close_spec", "others_get_closed_error", "close_error", "callback_once_after", "close_again",
@@ -21,19 +21,27 @@ THEOREMS = [_P + n for n in [
     "all_settled_once", "none_pending_after_close", "settled_exactly_once_at_close",
     "tryInline_gets_buffered", "later_read_gets_buffered",
     "read_error_in_loop_gets_data", "eof_in_loop_gets_data", "all_settled_once_arrivals",
+    # the closing step, whatever closes the stream (ClosePass.lean / CloseStep.lean)
+    "closing_step_settles_all", "closing_step_settles", "settled_exactly_once_at_any_close",
+    # ReqIs is reachable; the pending-read theorems over `run` (Reach.lean)
+    "pending_read_reqIs", "pending_read_at_close_run", "read_error_at_reachable", "eof_at_reachable",
+    # no later write or connect succeeds (Reach.lean)
+    "no_connect_after_close", "no_success_on_closed", "no_success_after_close",
 ]]
 TRUSTED = base.TRUSTED + [
     "asyncio.Future set-once semantics and FIFO call_soon ordering (abstraction: a settle event per future id)",
-    "the connect() / _handle_connect() used by the tie mirror IOStream's (no socket); real connect(2) errors are not exercised",
+    "connect(): the real IOStream.connect / IOStream._handle_connect run (unbound) on the fake stream over a fake socket "
+    "(connect() always 'in progress', SO_ERROR scripted by the op `cerr`); connect(2) itself / synchronous connect errors are not exercised",
 ]
 ASSUMPTIONS = base.ASSUMPTIONS + [
     "write futures: sizes only, the transport either takes everything, blocks, or raises (partial sends belong to C12)",
-    "at most one connect() per stream, issued first (a second connect() overwrites _connect_future: API misuse, excluded)",
+    "at most one connect() per stream, at any position incl. after the close (a second connect() overwrites _connect_future: API misuse, excluded)",
     "op `arrive` (bytes reach the transport, the handler does not run yet) stands for an IOLoop that reports readiness once "
     "per iteration; an error / EOF always comes with an event or is found by the next read call",
 ]
 RULE = ("op sequences <= 5 over a 12-op alphabet (complete for <= 2 in quick, <= 3 in thorough) with each of 7 close causes "
-        "inserted at every position, plus random sequences with writes/connect, plus the after-close grid (4 ways bytes get "
+        "inserted at every position and followed by a read, a write, a connect and a read_until_close, plus random sequences "
+        "with writes and one connect at any position (also after the close), plus the after-close grid (4 ways bytes get "
         "buffered unconsumed x 7 pending reads x 8 causes x 9 sequences of later reads: complete in thorough, 30 % sample in "
         "quick), plus the loop-close grid (read_chunk_size 1..5/default x 0..9 filler bytes x 21 pending reads x ECONNRESET / "
         "EIO / EOF met INSIDE one pass of the read loop x 5 ways bytes and cause meet the read [handler pass, handler pass on "
@@ -44,19 +52,29 @@ RULE = ("op sequences <= 5 over a 12-op alphabet (complete for <= 2 in quick, <=
 EXHAUSTIVE = {"quick": False, "thorough": False}
 CLAUSES = {
     "every pending read, write and connect future is completed exactly once":
-        "close_settles_all + close_spec (each pending id appears once in the events of close) + all_settled_once / "
-        "all_settled_once_arrivals (no id "
-        "settled twice over ANY run, all op sequences) + none_pending_after_close + settled_exactly_once_at_close (a future "
-        "pending at a close occurs exactly once in the settle log of the whole run, in that close step); the harness also "
-        "counts done-callbacks per future",
+        "settled_exactly_once_at_any_close (any run from a fresh stream, ANY op that takes the stream from open to closed — "
+        "close(), EOF, ECONNRESET, OSError, failed send, failed connect, Unsatisfiable / buffer-full read: nothing is pending "
+        "after that step, and a future pending before it occurs exactly once in the settle log of the whole run, in that step) "
+        "= closing_step_settles_all + closing_step_settles + all_settled_once / all_settled_once_arrivals (no id settled twice "
+        "over ANY run); close_settles_all + close_spec (what close() emits, exactly) + none_pending_after_close + "
+        "settled_exactly_once_at_close (the explicit close() op); the harness also counts done-callbacks per future",
     "reads that buffered data can satisfy complete with that data":
-        "satisfiable_read_gets_data + pending_read_at_close (vs Spec.expected, every cause) + read_error_in_loop_gets_data / "
-        "eof_in_loop_gets_data (the close made by _read_to_buffer inside the read loop: transport error k or EOF, read still "
-        "registered: completed with Spec.expected of the buffered bytes, else StreamClosedError(k)); oracle clause (2) on the "
-        "buffer snapshot taken at entry of close(), for every close cause",
+        "pending_read_at_close_run (any point of any run, close() with/without exception: the pending future gets "
+        "Spec.expected(request it was issued with, buffer) or StreamClosedError) from pending_read_reqIs (ReqIs holds in every "
+        "reachable state for the issued request) + satisfiable_read_gets_data + pending_read_at_close; for the close made by "
+        "_read_to_buffer inside the read loop (transport error k / EOF): read_error_in_loop_gets_data / eof_in_loop_gets_data "
+        "are function-level (state at the moment the loop asks the transport again); read_error_at_reachable / eof_at_reachable "
+        "discharge their ReqIs hypothesis for reachable states with no unread bytes in the transport; with unread bytes (the "
+        "state after some pulls of the same pass) ReqIs is tie only; oracle clause (2) on the buffer snapshot taken at entry "
+        "of close(), for every close cause",
     "everything else fails with StreamClosedError carrying the real error": "others_get_closed_error + pending_read_at_close + close_error",
-    "the close callback runs exactly once after that": "callback_once_after + close_again",
-    "no later write or connect succeeds": "no_write_after_close + closed_stays_closed (tie only: connect after close is not part of BaseIOStream)",
+    "the close callback runs exactly once after that": "callback_once_after + close_again (per close() call; run level: tie only — "
+                                                       "the oracle counts callback runs per step and over the case)",
+    "no later write or connect succeeds":
+        "no_write_after_close + no_connect_after_close (both raise StreamClosedError(real error), state unchanged; connect: after "
+        "the fix) + no_success_after_close (in ANY continuation of a closed state no write / connect future completes "
+        "successfully: the only events are read results, StreamClosedErrors and the close callback) + closed_stays_closed; the "
+        "tie runs the real IOStream.connect on closed streams (generators put connect at any position, incl. after the close)",
     "later reads succeed only from data that was already buffered":
         "read_after_close_only_buffered + closed_step (only from the buffer) + later_read_gets_buffered / tryInline_gets_buffered "
         "(and they do succeed from it, for every stream.error: a read the buffered bytes satisfy is completed at once with "
@@ -105,7 +123,7 @@ CAUSES = {
     "send-fail": [["wmode", "epipe"], ["write", 1], ["writable"]],
     "send-fail2": [["wmode", "wioerr"], ["writable"], ["write", 1]],
 }
-TAIL = [["rb", 2, True], ["write", 1], ["ruc"]]
+TAIL = [["rb", 2, True], ["write", 1], ["connect"], ["ruc"]]     # after the close: a read, a write, a connect, a read
 
 
 def _enum(maxlen, rng=None, sample=None):
@@ -293,11 +311,8 @@ def gen_cases(rng, tier):
         c = base.gen_ops(rng, writes=0.7, closes=1.0)
         if rng.random() < 0.2:
             c = _with_arrivals(rng, c)
-        if rng.random() < 0.25 and not any(o[0] == "connect" for o in c["ops"]):   # connect first, completing or failing somewhere
-            ops = c["ops"]
-            ops = [["connect"]] + ([["cerr", "refused"]] if rng.random() < 0.4 else []) + ops
-            ops.insert(rng.randrange(1, len(ops) + 1), ["writable"])
-            c = {**c, "ops": ops}
+        if rng.random() < 0.3 and not any(o[0] == "connect" for o in c["ops"]):   # one connect: first or anywhere (also
+            c = {**c, "ops": base.add_connect(rng, c["ops"], refused=0.4)}          # after the close), completing or failing
         yield c
 
 
@@ -463,8 +478,13 @@ def spec_violation(case, impl, replies):
         if not outs[i]["view"][0]:
             return "op %d: stream reopened" % i
         r = outs[i]["ret"]
-        if ops[i][0] in ("write", "connect") and not (isinstance(r, list) and r[0] == "raised" and r[1] == "StreamClosedError"):
-            return "op %d: %s on a closed stream returned %r" % (i, ops[i][0], r)
+        if ops[i][0] in ("write", "connect"):
+            # "does not succeed": the call raises StreamClosedError, or hands out a future that fails in the same step
+            refused = isinstance(r, list) and r[0] == "raised" and r[1] == "StreamClosedError"
+            if isinstance(r, list) and r[0] == "fut":
+                refused = _is_fail(dict((f, o) for f, o in outs[i]["settled"]).get(r[1]))
+            if not refused:
+                return "op %d: %s on a closed stream returned %r" % (i, ops[i][0], r)
         for f, o in outs[i]["settled"]:
             if not _is_fail(o):
                 if kinds[f] not in READ_KINDS:
